@@ -24,6 +24,9 @@ func init() {
 	for _, p := range []string{"C04", "C08"} {
 		runner.Register(p, runner.Scenario{Name: "reactive", Options: options, Body: func(c *runner.Ctx) { body(c, false) }})
 		runner.Register(p, runner.Scenario{Name: "reactive-stall", Options: stallOptions, Body: func(c *runner.Ctx) { body(c, true) }})
+		runner.Register(p, runner.Scenario{Name: "reactive-preempt", Options: func(string) simrt.Options {
+			return simrt.Options{MaxSteps: 150000, RotateMaps: true, ParkPermille: 8}
+		}, Body: func(c *runner.Ctx) { body(c, false) }})
 	}
 }
 
